@@ -39,6 +39,8 @@ pub fn mkid(i: Id) -> entity::Identifier {
 pub enum Prop {
     C01,
     C02,
+    /// only the wide-registry harnesses report under C03 (which entities a query over a high component position selects)
+    C03,
     C04,
     C05,
     C06,
@@ -52,6 +54,7 @@ impl Prop {
         match self {
             Prop::C01 => "C01",
             Prop::C02 => "C02",
+            Prop::C03 => "C03",
             Prop::C04 => "C04",
             Prop::C05 => "C05",
             Prop::C06 => "C06",
@@ -62,7 +65,7 @@ impl Prop {
         }
     }
     pub fn parse(s: &str) -> Option<Prop> {
-        [Prop::C01, Prop::C02, Prop::C04, Prop::C05, Prop::C06, Prop::C10, Prop::C13, Prop::C15, Prop::C16]
+        [Prop::C01, Prop::C02, Prop::C03, Prop::C04, Prop::C05, Prop::C06, Prop::C10, Prop::C13, Prop::C15, Prop::C16]
             .into_iter()
             .find(|p| p.name() == s)
     }
